@@ -26,6 +26,7 @@ def quiet(f, *a, **k):
 
 
 _LINKS = [0]
+_THREE_D = []
 
 
 def _takes_positional_noise_var(obj):
@@ -218,7 +219,7 @@ def run(run):
             # several frames in one call (a batch of rows, each holding `blocks` codewords) over the ideal channel: every row must come back as
             # it does alone - rows must not be mixed up when a decoder re-assembles its blocks
             try:
-                rows_fr = [fr for (mode, frs, _) in cases if mode == "ideal" for fr in frs][:5]
+                rows_fr = [fr for (mode, frs, _) in cases if mode == "ideal" for fr in frs][:6]
                 if len(rows_fr) >= 2:
                     fault["mode"] = "ideal"
                     cap.clear()
@@ -226,7 +227,12 @@ def run(run):
                         if hasattr(o, "reset_state"):
                             o.reset_state()
                     Xb = torch.stack([torch.cat([fec.from_int(m, k) for m in fr]) for fr in rows_fr])
+                    three_d = len(rows_fr) % 2 == 0 and _LINKS[0] % 2 == 0
+                    if three_d:
+                        Xb = Xb.reshape(2, len(rows_fr) // 2, -1)        # every other link: two leading dimensions (batch, frames, bits)
                     ob = model(Xb) if iface == "hard" else model(Xb, noise_var=1.0)
+                    if three_d:
+                        _THREE_D.append((cname, dname, mname))
 
 
                     ob = ob.reshape(len(rows_fr), blocks, k)
@@ -240,7 +246,7 @@ def run(run):
                             tid += 1
                             ev = {"ev": "Link", "tid": tid, "msgs": [fec.limbs(m, k) for m in fr], "flips": [fec.limbs(0, n)] * blocks,
                                   "cws": [fec.limbs(fec.to_int(encb[r, j]) ^ zero_cw, n) for j in range(blocks)], "rx": [fec.limbs(fec.to_int(hb[r, j]) ^ zero_cw, n) for j in range(blocks)],
-                                  "outs": outs_r, "nsym": int(cap["mod"].shape[-1]), "bps": bps, "raised": False, "mode": "ideal", "error": "", "call": "batch of %d rows, row %d" % (len(rows_fr), r)}
+                                  "outs": outs_r, "nsym": int(cap["mod"].shape[-1]), "bps": bps, "raised": False, "mode": "ideal", "error": "", "call": "batch of %d rows%s, row %d" % (len(rows_fr), " as (2, %d, bits)" % (len(rows_fr) // 2) if three_d else "", r)}
                             evs.append(ev)
                             meta.append((cfg, ev))
             except Exception:
@@ -249,6 +255,7 @@ def run(run):
                 h.remove()
     run.log("%d events" % len(evs))
     mism = tv.validate(run, "Trace_Link", evs, name="TV C09", timeout=3000, heap="12g")
+    run.extra["links_fed_three_dimensional_messages"] = len(_THREE_D)
     run.extra["links_called_with_positional_noise_variance"] = sum(1 for e in evs if "positional" in str(e.get("call", "")))
     seen = set()
     for (t_, line, clause) in mism:
